@@ -1,6 +1,7 @@
 //! Security families: C09 (authentication), C10 (cancel), C11 (hostile bytes).
 
 use super::*;
+use crate::proto;
 
 /// C09: users/databases configured or not, MD5 and trust, cleartext and auth_query secrets,
 /// wrong / truncated / oversized / replayed responses, other messages in place of the password,
@@ -384,5 +385,452 @@ pub fn c10(rng: &mut Rng, thorough: bool, idx: u64) -> Spec {
     spec.params = params_from(&cfg);
     spec.family = format!("cancel/{}/pool{}/rep{}", if session { "session" } else { "transaction" }, pool_size, replicas);
     spec.oracles = vec!["c10_cancel".into(), "liveness".into(), "no_panic".into()];
+    spec
+}
+
+// ------------------------------------------------------------------------------------------
+// C11: hostile bytes
+// ------------------------------------------------------------------------------------------
+
+fn frame(ty: u8, declared_len: i32, body: &[u8]) -> Vec<u8> {
+    let mut v = vec![ty];
+    v.extend_from_slice(&declared_len.to_be_bytes());
+    v.extend_from_slice(body);
+    v
+}
+
+fn well_framed(ty: u8, body: &[u8]) -> Vec<u8> {
+    frame(ty, body.len() as i32 + 4, body)
+}
+
+fn cs(s: &str) -> Vec<u8> {
+    let mut v = s.as_bytes().to_vec();
+    v.push(0);
+    v
+}
+
+/// Lengths that make a decoder allocate before any payload arrives; the low bits name the site so
+/// that the allocation seam can say which read path asked for the memory.
+pub const HUGE_STARTUP: i32 = 0x7fff_f004;
+pub const HUGE_PASSWORD: i32 = 0x7fff_e004;
+pub const HUGE_FRAME: i32 = 0x7fff_d004;
+pub const HUGE_ADMIN_FRAME: i32 = 0x7fff_c004;
+
+/// One hostile post-authentication payload: (class name, bytes).
+fn hostile_payload(rng: &mut Rng, tag: &str, allow_huge: bool) -> (String, Vec<u8>) {
+    let valid_q = proto::query(&format!("SELECT '{}'", tag)).bytes();
+    let kinds = [
+        "len_zero", "len_three", "len_negative", "len_short_of_body", "len_beyond_body_then_close", "unknown_type", "type_nul", "backend_type",
+        "q_no_nul", "q_empty", "q_invalid_utf8", "q_long", "p_no_nul", "p_name_only", "p_param_count_negative", "p_param_count_huge", "b_no_nul", "b_counts_huge",
+        "b_param_len_negative", "b_param_len_beyond", "b_unknown_stmt", "d_bad_kind", "d_empty", "d_unknown", "c_bad_kind", "c_empty", "c_no_nul", "e_no_nul", "e_without_bind",
+        "sync_alone", "flush_alone", "copydata_outside_copy", "copydone_outside_copy", "copyfail_outside_copy", "password_msg", "function_call", "terminate_then_more",
+        "random_bytes", "half_frame_then_close", "parse_without_sync_then_close", "bind_name_invalid_utf8", "huge_len",
+        "q_error_echo_non_utf8", "q_error_echo_non_utf8", "p_trailing_query", "p_fewer_types_than_announced", "b_trailing_query", "d_trailing_query", "c_trailing_query", "mutated_batch", "mutated_batch", "mutated_batch",
+    ];
+    let mut k = *rng.pick(&kinds);
+    if k == "huge_len" && !allow_huge {
+        k = "len_negative";
+    }
+    let bytes: Vec<u8> = match k {
+        "len_zero" => frame(b'Q', 0, b""),
+        "len_three" => frame(b'Q', 3, b""),
+        "len_negative" => frame(*rng.pick(&[b'Q', b'P', b'B', b'X', b'd']), *rng.pick(&[-1i32, -2, -5, i32::MIN, -2147483644]), b"abc"),
+        "len_short_of_body" => {
+            // the declared length ends inside the body: the rest is read as the next message
+            let mut v = frame(b'Q', 4 + 5, b"SELEC");
+            v.extend_from_slice(b"T 1\0");
+            v
+        }
+        "len_beyond_body_then_close" => frame(b'Q', 4 + 200, b"SELECT 1\0"),
+        "unknown_type" => well_framed(*rng.pick(&[b'!', b'~', b'z', b'A', b'0', 0xff, 0x80]), b"junk\0"),
+        "type_nul" => well_framed(0, b""),
+        "backend_type" => well_framed(*rng.pick(&[b'Z', b'T', b'1', b'R', b'K', b'E', b'N']), b"I"),
+        "q_no_nul" => well_framed(b'Q', b"SELECT 1"),
+        "q_empty" => well_framed(b'Q', b""),
+        "q_invalid_utf8" => well_framed(b'Q', b"SELECT '\xff\xfe\xc3\x28'\0"),
+        "q_error_echo_non_utf8" => proto::query(&format!("SELECT '{}', sim_error_nonutf8()", tag)).bytes(),
+        "q_long" => {
+            let mut b = b"SELECT '".to_vec();
+            b.extend(std::iter::repeat(b'x').take(rng.range(9000, 70000) as usize));
+            b.extend_from_slice(b"'\0");
+            well_framed(b'Q', &b)
+        }
+        "p_no_nul" => well_framed(b'P', b"s1"),
+        "p_name_only" => well_framed(b'P', b"s1\0"),
+        "p_param_count_negative" => {
+            let mut b = cs("s1");
+            b.extend(cs("SELECT 1"));
+            b.extend_from_slice(&(-1i16).to_be_bytes());
+            well_framed(b'P', &b)
+        }
+        "p_param_count_huge" => {
+            let mut b = cs("s1");
+            b.extend(cs("SELECT $1"));
+            b.extend_from_slice(&(0x7fffi16).to_be_bytes());
+            b.extend_from_slice(&23i32.to_be_bytes());
+            well_framed(b'P', &b)
+        }
+        "b_no_nul" => well_framed(b'B', b"portal"),
+        "b_counts_huge" => {
+            let mut b = cs("");
+            b.extend(cs(""));
+            b.extend_from_slice(&(0x7fffi16).to_be_bytes());
+            well_framed(b'B', &b)
+        }
+        "b_param_len_negative" => {
+            let mut b = cs("");
+            b.extend(cs(""));
+            b.extend_from_slice(&0i16.to_be_bytes());
+            b.extend_from_slice(&1i16.to_be_bytes());
+            b.extend_from_slice(&(*rng.pick(&[-2i32, -100, i32::MIN])).to_be_bytes());
+            b.extend_from_slice(&0i16.to_be_bytes());
+            well_framed(b'B', &b)
+        }
+        "b_param_len_beyond" => {
+            let mut b = cs("");
+            b.extend(cs(""));
+            b.extend_from_slice(&0i16.to_be_bytes());
+            b.extend_from_slice(&1i16.to_be_bytes());
+            b.extend_from_slice(&(*rng.pick(&[100i32, 0x7fffffff, 65536])).to_be_bytes());
+            b.extend_from_slice(b"ab");
+            well_framed(b'B', &b)
+        }
+        "b_unknown_stmt" => {
+            let mut v = proto::bind("", "never_parsed", &[], &[], &[]).bytes();
+            v.extend(proto::execute("", 0).bytes());
+            v.extend(proto::sync().bytes());
+            v
+        }
+        "d_bad_kind" => well_framed(b'D', b"Xs1\0"),
+        "d_empty" => well_framed(b'D', b""),
+        "d_unknown" => {
+            let mut v = well_framed(b'D', b"Snever_parsed\0");
+            v.extend(proto::sync().bytes());
+            v
+        }
+        "c_bad_kind" => well_framed(b'C', b"Zs1\0"),
+        "c_empty" => well_framed(b'C', b""),
+        "c_no_nul" => well_framed(b'C', b"Ss1"),
+        "e_no_nul" => well_framed(b'E', b"portal"),
+        "e_without_bind" => {
+            let mut v = proto::execute("nope", 0).bytes();
+            v.extend(proto::sync().bytes());
+            v
+        }
+        "sync_alone" => proto::sync().bytes(),
+        "flush_alone" => well_framed(b'H', b""),
+        "copydata_outside_copy" => well_framed(b'd', b"1\t2\n"),
+        "copydone_outside_copy" => well_framed(b'c', b""),
+        "copyfail_outside_copy" => well_framed(b'f', b"nope\0"),
+        "password_msg" => well_framed(b'p', b"md5deadbeefdeadbeefdeadbeefdeadbeef\0"),
+        "function_call" => well_framed(b'F', &[0, 0, 0, 1, 0, 0, 0, 0, 0, 0]),
+        "terminate_then_more" => {
+            let mut v = well_framed(b'X', b"");
+            v.extend_from_slice(&valid_q);
+            v
+        }
+        "random_bytes" => {
+            let mut v = vec![0u8; rng.range(1, 300) as usize];
+            rng.fill(&mut v);
+            v
+        }
+        "half_frame_then_close" => {
+            let cut = rng.range(1, valid_q.len() as u64 - 1) as usize;
+            valid_q[..cut].to_vec()
+        }
+        "parse_without_sync_then_close" => proto::parse("s9", &format!("SELECT '{}'", tag), &[]).bytes(),
+        "bind_name_invalid_utf8" => {
+            let mut v = proto::parse("s1", &format!("SELECT '{}'", tag), &[]).bytes();
+            let mut b = vec![0u8]; // portal ""
+            b.extend_from_slice(b"\xff\xfes1\0");
+            b.extend_from_slice(&0i16.to_be_bytes());
+            b.extend_from_slice(&0i16.to_be_bytes());
+            b.extend_from_slice(&0i16.to_be_bytes());
+            v.extend(well_framed(b'B', &b));
+            v.extend(proto::sync().bytes());
+            v
+        }
+        "p_trailing_query" | "b_trailing_query" | "d_trailing_query" | "c_trailing_query" => {
+            // a well-formed message followed, inside its frame, by a complete Query message
+            // (padded to a multiple of four bytes): a decoder that re-encodes what it read must
+            // not let the tail escape the frame
+            let mut tail_sql = format!("SELECT '{}'", tag);
+            while (tail_sql.len() + 1 + 5) % 4 != 0 {
+                tail_sql.push(' ');
+            }
+            let tail = proto::query(&tail_sql).bytes();
+            let mut v = Vec::new();
+            let mut body = match k {
+                "p_trailing_query" => {
+                    let mut b = cs("h1");
+                    b.extend(cs("SELECT 1"));
+                    b.extend_from_slice(&0i16.to_be_bytes());
+                    b
+                }
+                "b_trailing_query" => {
+                    v.extend(proto::parse("h1", "SELECT 1", &[]).bytes());
+                    proto::bind("", "h1", &[], &[], &[]).body
+                }
+                "d_trailing_query" => {
+                    v.extend(proto::parse("h1", "SELECT 1", &[]).bytes());
+                    proto::describe(b'S', "h1").body
+                }
+                _ => {
+                    v.extend(proto::parse("h1", "SELECT 1", &[]).bytes());
+                    proto::close(b'S', "h1").body
+                }
+            };
+            body.extend_from_slice(&tail);
+            let ty = match k { "p_trailing_query" => b'P', "b_trailing_query" => b'B', "d_trailing_query" => b'D', _ => b'C' };
+            v.extend(well_framed(ty, &body));
+            v.extend(proto::sync().bytes());
+            v
+        }
+        "p_fewer_types_than_announced" => {
+            let mut b = cs("h2");
+            b.extend(cs("SELECT $1, $2"));
+            b.extend_from_slice(&(*rng.pick(&[2i16, 3, 8])).to_be_bytes());
+            b.extend_from_slice(&23i32.to_be_bytes());
+            let mut v = well_framed(b'P', &b);
+            v.extend(proto::sync().bytes());
+            v
+        }
+        "mutated_batch" => {
+            // a valid extended-protocol batch with a few PRNG edits (flip, insert, delete,
+            // overwrite a length or count field)
+            // no tag here: edits could turn it into somebody else's
+            let sql = "SELECT 'mutated', $1".to_string();
+            let mut v = Vec::new();
+            v.extend(proto::parse("m1", &sql, &[25]).bytes());
+            v.extend(proto::describe(b'S', "m1").bytes());
+            v.extend(proto::bind("", "m1", &[0], &[Some(b"x".to_vec())], &[0]).bytes());
+            v.extend(proto::execute("", 0).bytes());
+            if rng.chance(0.5) {
+                v.extend(proto::close(b'S', "m1").bytes());
+            }
+            v.extend(proto::sync().bytes());
+            for _ in 0..rng.range(1, 3) {
+                let i = rng.below(v.len() as u64) as usize;
+                match rng.below(5) {
+                    0 => v[i] ^= 1 << rng.below(8),
+                    1 => v.insert(i, rng.below(256) as u8),
+                    2 => {
+                        v.remove(i);
+                    }
+                    3 => v[i] = *rng.pick(&[0u8, 0xff, 0x7f, 0x80]),
+                    _ => {
+                        let n = rng.range(1, 8) as usize;
+                        for _ in 0..n {
+                            v.insert(i, 0);
+                        }
+                    }
+                }
+            }
+            v
+        }
+        _ => frame(*rng.pick(&[b'Q', b'P', b'd', b'B']), HUGE_FRAME, b"SELECT 1\0"),
+    };
+    // most malformed extended-protocol messages are followed by a Sync, so that the pooler acts on them
+    let mut bytes = bytes;
+    if (k.starts_with("p_") || k.starts_with("b_") || k.starts_with("d_") || k.starts_with("c_") || k.starts_with("e_")) && !k.ends_with("_query") && k != "p_fewer_types_than_announced" && rng.chance(0.6) {
+        bytes.extend(proto::sync().bytes());
+    }
+    (k.to_string(), bytes)
+}
+
+fn hostile_startup(rng: &mut Rng, allow_huge: bool) -> (String, Vec<u8>) {
+    let kinds = ["len_zero", "len_three", "len_four", "len_seven", "len_negative", "unknown_code", "truncated", "no_user", "no_terminator", "invalid_utf8", "only_keys", "huge_len", "proto_v2", "gssenc", "random"];
+    let mut k = *rng.pick(&kinds);
+    if k == "huge_len" && !allow_huge {
+        k = "len_negative";
+    }
+    let good = proto::startup_packet(&[("user".into(), "app".into()), ("database".into(), "db".into())]);
+    let mut with_len = |len: i32, rest: &[u8]| -> Vec<u8> {
+        let mut v = len.to_be_bytes().to_vec();
+        v.extend_from_slice(rest);
+        v
+    };
+    let v3 = 196608i32.to_be_bytes();
+    let bytes = match k {
+        "len_zero" => with_len(0, b""),
+        "len_three" => with_len(3, b""),
+        "len_four" => with_len(4, b""),
+        "len_seven" => with_len(7, &v3[..3]),
+        "len_negative" => with_len(*rng.pick(&[-1i32, -4, i32::MIN]), &v3),
+        "unknown_code" => with_len(8, &(*rng.pick(&[0i32, 1, 80877104, 12345678, -1])).to_be_bytes()),
+        "truncated" => good[..rng.range(1, good.len() as u64 - 1) as usize].to_vec(),
+        "no_user" => proto::startup_packet(&[("database".into(), "db".into())]),
+        "no_terminator" => {
+            let mut b = v3.to_vec();
+            b.extend_from_slice(b"user\0app\0database\0db");
+            with_len(b.len() as i32 + 4, &b)
+        }
+        "invalid_utf8" => {
+            let mut b = v3.to_vec();
+            b.extend_from_slice(b"user\0\xff\xfe\0database\0db\0\0");
+            with_len(b.len() as i32 + 4, &b)
+        }
+        "only_keys" => {
+            let mut b = v3.to_vec();
+            b.extend_from_slice(b"user\0app\0database\0\0");
+            with_len(b.len() as i32 + 4, &b)
+        }
+        "huge_len" => with_len(HUGE_STARTUP, &v3),
+        "proto_v2" => with_len(8, &131072i32.to_be_bytes()),
+        "gssenc" => with_len(8, &80877104i32.to_be_bytes()),
+        _ => {
+            let mut v = vec![0u8; rng.range(1, 64) as usize];
+            rng.fill(&mut v);
+            v
+        }
+    };
+    (k.to_string(), bytes)
+}
+
+/// C11: canaries sharing a small pool with attackers that send hostile bytes at every protocol
+/// state (before the startup packet, in place of the password, after authentication outside and
+/// inside a transaction, inside COPY, on the admin console), with the statement cache and the
+/// query parser on or off. Canaries only issue statements that cannot fail.
+pub fn c11(rng: &mut Rng, thorough: bool, idx: u64) -> Spec {
+    let session = rng.chance(0.15);
+    let pool_size = if rng.chance(0.7) { 1 } else { 2 };
+    let mut cfg = single_pool(if session { "session" } else { "transaction" }, pool_size, 0);
+    cfg.set("connect_timeout", 60000);
+    cfg.set("ban_time", 60);
+    cfg.set("idle_client_in_transaction_timeout", 0);
+    let cache_on = rng.chance(0.5);
+    if cache_on {
+        cfg.pools[0].cache_size = *rng.pick(&[1usize, 8]);
+    }
+    let parser_on = rng.chance(0.4);
+    cfg.pools[0].query_parser_enabled = parser_on;
+    // the memory limit of the deployment; huge declared lengths only in every other run so that
+    // the other payload classes are judged on their own
+    let allow_huge = idx % 2 == 1;
+    let mut clients = Vec::new();
+    let ncan = rng.range(1, 2) as u32;
+    for id in 1..=ncan {
+        let mut p = Prog::new(id);
+        let n = rng.range(4, if thorough { 14 } else { 9 });
+        super::control::worker_prog(&mut p, rng, n, (5, 120), !cache_on);
+        p.steps.push(Step::Terminate);
+        let mut c = client(id, "app", "db", "apppw", rng.range(0, 40), p.steps);
+        c.role = "canary".into();
+        c.patience_ms = 20_000;
+        clients.push(c);
+    }
+    // admin canary
+    let mut a = admin_client(50, "main", When::AtMs { ms: rng.range(0, 300) }, &["SHOW POOLS", "SHOW CLIENTS"]);
+    a.steps.insert(1, Step::Think { ms: rng.range(100, 900) });
+    a.patience_ms = 20_000;
+    clients.push(a);
+    // attackers
+    let natt = rng.range(1, if thorough { 5 } else { 3 }) as u32;
+    let mut kinds = serde_json::Map::new();
+    for k in 0..natt {
+        let id = 100 + k;
+        let mut p = Prog::new(id);
+        let stage = *rng.pick(&["startup", "password", "post_auth", "post_auth", "post_auth", "in_txn", "in_txn", "in_copy", "admin", "after_parse"]);
+        let mut c = client(id, "app", "db", "apppw", rng.range(0, 900), vec![]);
+        c.role = "attacker".into();
+        c.patience_ms = 1500;
+        let mut label = String::new();
+        match stage {
+            "startup" => {
+                let (k, b) = hostile_startup(rng, allow_huge);
+                c.raw_startup = Some(proto::hex(&b));
+                if rng.chance(0.3) {
+                    c.ssl_probe = true;
+                }
+                label = format!("startup/{}", k);
+            }
+            "password" => {
+                c.auth = rng.pick(&["othermsg", "oversized", "truncated", "eof", if allow_huge { "hugelen" } else { "none" }]).to_string();
+                if rng.chance(0.3) {
+                    c.user = "admin".into();
+                    c.database = "pgcat".into();
+                    c.password = Some("adminpw".into());
+                }
+                label = format!("password/{}", c.auth);
+            }
+            "admin" => {
+                c.user = "admin".into();
+                c.database = "pgcat".into();
+                c.password = Some("adminpw".into());
+                let (k, mut b) = hostile_payload(rng, "c0.t0.s0", false);
+                if allow_huge && rng.chance(0.2) {
+                    b = frame(b'Q', HUGE_ADMIN_FRAME, b"SHOW");
+                    label = "admin/huge_len".into();
+                } else {
+                    label = format!("admin/{}", k);
+                }
+                p.steps.push(Step::Raw { hex: proto::hex(&b), read_ms: rng.range(20, 200) });
+            }
+            _ => {
+                if stage == "in_txn" {
+                    p.new_txn();
+                    let t = p.tag();
+                    p.simple(format!("BEGIN /* {} */", t));
+                    let s = p.select(1, 0, "");
+                    p.simple(s);
+                    if rng.chance(0.3) {
+                        let t = p.tag();
+                        p.simple(format!("SET statement_timeout TO 12345 /* {} */", t));
+                    }
+                } else if stage == "in_copy" {
+                    p.new_txn();
+                    let t = p.tag();
+                    let mut b = proto::query(&format!("COPY t FROM STDIN /* {} */", t)).bytes();
+                    b.extend(proto::copy_data(b"1\t2\n").bytes());
+                    p.steps.push(Step::Raw { hex: proto::hex(&b), read_ms: rng.range(20, 80) });
+                } else if stage == "after_parse" {
+                    p.new_txn();
+                    let t = p.tag();
+                    p.send(vec![FrontMsg::P { name: "s1".into(), sql: format!("SELECT '{}'", t), types: vec![] }, FrontMsg::S]);
+                }
+                let n = rng.range(1, 3);
+                let mut ks = Vec::new();
+                for _ in 0..n {
+                    p.new_txn();
+                    let t = p.tag();
+                    let (k, b) = hostile_payload(rng, &t, allow_huge);
+                    ks.push(k);
+                    p.steps.push(Step::Raw { hex: proto::hex(&b), read_ms: rng.range(5, 150) });
+                }
+                label = format!("{}/{}", stage, ks.join("+"));
+            }
+        }
+        // whatever happened, try a normal query, then leave (never hold anything for long)
+        if rng.chance(0.5) {
+            p.new_txn();
+            let s = p.select(1, 0, "");
+            p.simple(s);
+        }
+        p.steps.push(Step::Drop { abort: rng.chance(0.3) });
+        c.steps = p.steps;
+        kinds.insert(id.to_string(), serde_json::json!(label));
+        clients.push(c);
+    }
+    // final phase: everything still works
+    let mut p = Prog::new(90);
+    super::control::worker_prog(&mut p, rng, 3, (1, 10), !cache_on);
+    p.steps.push(Step::Terminate);
+    let mut probe = client(90, "app", "db", "apppw", 0, p.steps);
+    probe.phase = "final".into();
+    probe.role = "probe".into();
+    probe.patience_ms = 20_000;
+    clients.push(probe);
+    let mut fa = admin_client(91, "final", When::AtMs { ms: 0 }, &["SHOW POOLS", "SHOW SERVERS"]);
+    fa.patience_ms = 20_000;
+    clients.push(fa);
+
+    let net = if rng.chance(0.4) { net_calm() } else { NetSpec { latency_ms: (0, *rng.pick(&[0u64, 1, 3])), ..net_swarm(rng) } };
+    let mut spec = Spec { config_toml: cfg.render(), hosts: cfg.hosts(), net, clients, end: EndSpec { deadline_ms: 900_000, calm_ms: 200 }, ..Default::default() };
+    spec.params = params_from(&cfg);
+    spec.params.insert("cache_on".into(), serde_json::json!(cache_on));
+    spec.params.insert("c11_kinds".into(), serde_json::Value::Object(kinds));
+    spec.params.insert("mem_limit_mb".into(), serde_json::json!(1024));
+    spec.family = format!("hostile/{}{}{}{}", if session { "session" } else { "transaction" }, if cache_on { "/cache" } else { "" }, if parser_on { "/parser" } else { "" }, if allow_huge { "/huge_lengths" } else { "" });
+    spec.oracles = vec!["c11_hostile".into(), "liveness".into()];
     spec
 }
